@@ -110,6 +110,13 @@ CHECKS = {
                      'divergence as path outcomes and z3 yields the departure set of every such path, which is replayed on the native binary. Also: unregistered start file, a message part '
                      'naming a non-element component. Import cycles are decided by C11.',
                 note='trusted: SMI environment models; roxmltree itself (only "parse fails" is modelled for malformed text); inputs are departures from three base documents; time is counted in MIR steps, not seconds'),
+    'C14': dict(engine='E1-kani + E2-smi', cat='model_checking', design='4/C14',
+                technique='Kani/CBMC on rename_keywords over all identifier strings per length; symbolic execution of the emitters with a Rust lexer run over the symbolic output (z3 decides token-structure independence)',
+                text='(E1) rename_keywords is decided for every identifier-shaped string of 1..10 bytes against the edition-2024 keyword list. (E2) Fourteen places where schema text flows into '
+                     'the output are symbolic over adversarial strings; reader and emitters run symbolically and a Rust lexer is run over the emitted rope with a symbolic state: z3 decides '
+                     'whether the erased token structure (string literals, comments and identifier spellings erased; keywords and illegal raw identifiers kept) or the value of a literal depends '
+                     'on the text, within a path (all alternatives lex alike) and across paths (each path lexes like the benign output). Findings are replayed on the native binary.',
+                note='trusted: smi/rustlex.py, SMI environment models, Kani/CBMC; string domains are finite (4-8 adversarial values per site); rustc itself is not run'),
 }
 
 NA = {
@@ -117,7 +124,7 @@ NA = {
     'C04': 'deserialization and round-trip are executed by yaserde derive expansion and xml-rs at run time (fmt/dyn/heap); CBMC cannot get through it and the MIR interpreter covers zeep, not yaserde',
     'C18': 'Send/Sync are auto-trait facts computed by rustc from the coroutine layout, not properties of executions a bounded symbolic run can falsify',
 }
-PENDING = ['C14']
+PENDING = []
 
 
 def main():
